@@ -8,7 +8,7 @@ CLAIMED = {
                 text='seeded search over interleavings (file-system-call granularity) of 2-5 contender processes running '
                      'the real FileLock/SemLock/LockFile code on a simulated kernel (SimFS flock semantics, simulated clock, '
                      'process kills); online mutual-exclusion monitor, justified-timeout oracle, relock-after-quiescence '
-                     '(incl. giving up on stale information after the lock became free) and deadlock detection; one unlink of the lock file may fail (EPERM/EIO/EACCES). Sampling of schedules, not proof.',
+                     '(incl. giving up on stale information after the lock became free) and deadlock detection; one unlink of the lock file may fail (EPERM/EIO/EACCES), one flock() may fail (ENOLCK/EINTR/EIO); in the tile-locker mode the locks come from TileLocker.lock() while another task keeps running cleanup_lockdir(). Sampling of schedules, not proof.',
                 note='trusted: SimFS model of open/flock/unlink/close semantics (differentially tested against tmpfs), '
                      'pre-emption only at seam calls, CPython refcounting for descriptor lifetime',
                 technique='deterministic simulation: baton-passing scheduler over real threads + in-memory POSIX fs with flock, seeded schedule search, process-kill injection'),
@@ -21,7 +21,7 @@ CLAIMED = {
                      'operation and by full-pool sweeps with a dict reference model; separate I/O-fault configuration '
                      '(EIO/ENOSPC/EACCES/short write inside a mutating call, one-shot or lasting until the call returns) for the file and compact '
                      'backends on SimFS; about one case in 200 is a three-phase history in three separately started interpreters; about one in eight is a '
-                     'concurrent-writers case (2-3 processes or threads with disjoint but colliding addresses under the scheduler).',
+                     'concurrent-writers case (2-3 processes or threads with disjoint but colliding addresses under the scheduler). Bulk stores may name one address twice; about 4% of the compact histories run on bundles extended (sparsely) beyond 4 GiB.',
                 note='trusted: SimFS for file/compact backends; sqlite-based backends run on a real tmpfs directory outside the '
                      'simulator (sequential, fault-free only; a second connection waits 0.3 s of real time for a locked database); sampling of histories, not exhaustive',
                 technique='deterministic simulation: model-based history checking against a reference map on a simulated file system with I/O-fault injection'),
@@ -46,7 +46,7 @@ CLAIMED = {
                      'scheduled at file-system-call granularity (incl. 3-4 writers contending for one bundle with lock-retry timers '
                      'firing while the holder runs), checked at quiescence. Sequential histories also meet I/O errors (one-shot or sticky) inside '
                      'a store/remove - the bundle must stay structurally valid - and dry-run defragmentations that must not change a byte. A defragmentation may meet one failing open() (it may abort, it must not lose a tile). About one case in 100 '
-                     'extends a bundle beyond 4 GiB as a sparse file on tmpfs and validates it through mmap. Cache directory names vary (also names containing the bundle extension).',
+                     'extends a bundle beyond 4 GiB as a sparse file on tmpfs and validates it through mmap. In the threads mode a thread may also be switched between two statements of compact.py (line events). Cache directory names vary (also names containing the bundle extension).',
                 note='trusted: the independent parser (checks/bundleparse.py), SimFS; histories and schedules are sampled',
                 technique='deterministic simulation: model-based history checking with an independent bundle parser; seeded schedule search for concurrent bundle writers'),
     'C15': dict(level='exploration', ref='DESIGN.md 6.8',
@@ -58,7 +58,7 @@ CLAIMED = {
                      'once, the call terminates; a second call on the same pool object is judged the same way. Call-site mode: 1-3 request '
                      'threads on one real TileManager each fan out 2-4 tile creations (TileCreator._create_threaded) with seeded failing '
                      'fetches: every caller gets its own tiles in input order, a failure reaches exactly the caller it belongs to. Pool re-use after a first call that the consumer abandoned at the first '
-                     'failing result (as the call sites do), with seeded garbage-collection points during the second call; busy processes (thousands of live threads), one refused thread start, nested fan-outs (up to 24 outer items); module-level semaphores/locks of async_ are scheduler-aware.',
+                     'failing result (as the call sites do), with seeded garbage-collection points during the second call; busy processes (thousands of live threads), one refused thread start, nested fan-outs (up to 24 outer items); module-level semaphores/locks of async_ are scheduler-aware; the callable handed in is a function, a functools.partial, a callable object or a bound method.',
                 note='trusted: SimQueue has queue.Queue semantics; pre-emption only at queue operations and explicit item steps',
                 technique='deterministic simulation: baton-passing scheduler adopting the pool\'s real worker threads, seeded completion-order search'),
     'C08': dict(level='exploration', ref='DESIGN.md 6.4',
@@ -70,7 +70,7 @@ CLAIMED = {
                      'and attributable to one fetch, final cache holds only correct in-grid tiles incl. every served tile '
                      '(API + raw walk), one fetch per meta tile, termination. A rare lock-identity case starts two fresh interpreters with '
                      'different hash seeds and compares the lock file names they derive for the same tiles and bundles. Backends include linked '
-                     'single-colour tiles (one shared file per colour, written without a tile lock of its own). Backends also include mbtiles and per-level sqlite caches: the SQLite calls are pre-emption points and busy waits run in simulated time, requests run inside cache sessions. With bulk_meta_tiles the source may have nothing (BlankImage) for some tiles of a meta tile: the others must still be stored once, without refetching.',
+                     'single-colour tiles (one shared file per colour, written without a tile lock of its own). Worker processes may start together (each builds its cache when its first request runs). File-cache cases may carry a dimension value per client (judged per value). Backends also include mbtiles, per-level sqlite, geopackage and per-level geopackage caches: the SQLite calls are pre-emption points and busy waits run in simulated time, requests run inside cache sessions. With bulk_meta_tiles the source may have nothing (BlankImage) for some tiles of a meta tile: the others must still be stored once, without refetching.',
                 note='trusted: stub source (TileManager-level runs) or simulated HTTP transport behind HTTPClient.open (about 20% of the '
                      'runs go through the full WSGI application built by the real loader: TMS/WMTS/KML/WMS-C/WMS GetMap), SimFS '
                      'flock/rename semantics, pre-emption at seam calls only',
@@ -79,11 +79,11 @@ CLAIMED = {
                 text='seeded histories of tile requests, clock advances (sub-second, to a second boundary, backwards, hours ... months), '
                      'threshold changes (relative age in seconds ... weeks or several units at once, absolute ISO time, mtime of a file), touches of that file, upstream '
                      'failure/recovery and real refresh seed tasks, on the real TileManager (single- and meta-tile creation) with '
-                     'file cache (also with symlinked single-colour tiles) on SimFS or per-level sqlite cache, plus two or three concurrent requests under a refresh rule; oracle from the timestamps actually recorded: stale tile => '
+                     'file cache (also with symlinked single-colour tiles) on SimFS or per-level sqlite cache, plus two or three concurrent requests under a refresh rule (the upstream may answer in no time, so that a request is overtaken between its freshness check and its lock); oracle from the timestamps actually recorded: stale tile => '
                      'upstream asked, tile rewritten with the new fetch generation; fresh tile => no upstream call, same '
                      'generation; a failed refresh never removes or changes the stored tile; a tile written during a request is recorded with '
                      'the time of that write even when the source reports older data; single stored tiles may be aged (mixed-age meta tiles); a disk error may hit the store of a refreshed tile (the old tile must survive); an optional transparent overlay source may fail softly (the uncacheable result must not be stored); the seeding tile manager carries the cache\'s own refresh_before; absolute thresholds also arrive as datetime objects; the tile manager may be built by the real loader (two grids); same-second band unspecified. Cases run in seeded '
-                     'fixed-offset local time zones.',
+                     'fixed-offset local time zones or one with daylight-saving time in force.',
                 note='trusted: simulated clock behind time.time/time.sleep/datetime.now of util/times.py, stub upstream, SimFS mtimes; '
                      'sqlite backend outside the simulator',
                 technique='deterministic simulation: simulated clock + simulated upstream with failure injection, model-based history checking'),
@@ -91,18 +91,18 @@ CLAIMED = {
                 text='seeded histories of GETs, conditional GETs (If-None-Match current/previous/garbage, If-Modified-Since '
                      'before/equal/after/previous/ancient/malformed in the three HTTP-date spellings), clock advances, rewrites through the real expiry path and upstream-500 '
                      'periods against the full WSGI application built by the real loader (TMS, KML, WMTS REST/KVP, WMS-C; file '
-                     'cache on SimFS - also with linked single-colour tiles - or per-level sqlite cache; single and meta tiles; one source or two merged sources of which only the overlay fails) with a simulated upstream behind '
+                     'cache on SimFS - also with sym- or hard-linked single-colour tiles - or per-level sqlite cache; single and meta tiles; one source or two merged sources of which only the overlay fails) with a simulated upstream behind '
                      'HTTPClient.open; oracle: identical validators and body while the fetch generation in the pixels is '
                      'unchanged, 304 + empty body for the current ETag, every 304 justified (also for the previous copy\'s validators, pre-1970 '
                      'dates and requests that themselves trigger the refresh), fill images carry no-store, get no 304 and are never '
-                     'served from the cache. The cache may carry an invisible watermark filter, WMS-C answers may be merged from two cached layers, and the cache may sit on top of an inner cache with a larger tile size (fill images must stay uncacheable through the crop). A cacheable 404 mapping of the same colour may sit next to the uncached 500 one (the oracle replays what is stored per tile); race cases rewrite a tile through the cache API while it is served (a response\'s ETag may equal the stored tile\'s only if the bodies agree). A rewrite two or more seconds after the previous write must move Last-Modified on. The disk may be full while a fetched tile is stored (a tile that was not stored must not be answered with 304 later). Dates are written and read by the check\'s own code; cases run in seeded fixed-offset local time zones.',
+                     'served from the cache. The cache may carry an invisible watermark filter, WMS-C answers may be merged from two cached layers, and the cache may sit on top of an inner cache with a larger tile size (fill images must stay uncacheable through the crop). A cacheable 404 mapping of the same colour may sit next to the uncached 500 one (the oracle replays what is stored per tile); race cases rewrite a tile through the cache API while it is served (file backend at file-system-call granularity, per-level sqlite at SQLite-call granularity, with and without a refresh rule) (a response\'s ETag may equal the stored tile\'s only if the bodies agree). A rewrite two or more seconds after the previous write must move Last-Modified on. The disk may be full while a fetched tile is stored (a tile that was not stored must not be answered with 304 later). Dates are written and read by the check\'s own code; cases run in seeded fixed-offset local time zones.',
                 note='trusted: simulated HTTP transport and clock; sqlite backend outside the simulator; creating responses are '
                      'excluded from the equality clause',
                 technique='deterministic simulation: full WSGI stack over simulated clock, file system and upstream with HTTP-500 injection; model-based history checking'),
     'C12': dict(level='exploration', ref='DESIGN.md 6.6',
                 text='seeded cache contents (tiles stored at seeded simulated times, some in the same second; foreign objects: a '
                      'second cache, lock files, stray files) x one cleanup task (level list / range / open and zero-ended ranges / all; remove_all, remove_before as '
-                     'absolute time / relative age / file mtime, default; full extent, bbox (grid SRS or EPSG:4326), polygon or multi-part coverage; seeded fixed-offset local time zone and file time-stamp granularity; a deep variant places tiles around the bundle borders of levels 8/9 of a twelve-level pyramid; an earlier cleanup task of the same run may precede the task under test; directories may be older than their tiles; removals may take seconds; a temporary file may vanish while the cleanup walks its directory; factor-2, sqrt2 and custom-resolution grids) built by the real '
+                     'absolute time / relative age / file mtime, default; full extent, bbox (grid SRS or EPSG:4326), polygon or multi-part coverage; seeded fixed-offset local time zone and file time-stamp granularity; a deep variant places tiles around the bundle borders of levels 8/9 of a twelve-level pyramid; an earlier cleanup task of the same run may precede the task under test; directories may be older than their tiles; removals may take seconds; a temporary file may vanish while the cleanup walks its directory; tiles may be stored again before the cleanup; the clock of the cleanup may be behind the newest tiles; factor-2, sqrt2 and custom-resolution grids) built by the real '
                      'CleanupConfiguration and executed by the real cleanup() - all three strategies, with the real '
                      'TileCleanupWorker threads under the scheduler - on file (6 layouts, linked single-colour tiles, cache-level refresh_before), compact v1/v2 (SimFS), sqlite, mbtiles, '
                      'geopackage (tmpfs); oracle from recorded timestamps and independent geometry: must-remove / must-keep / '
@@ -111,7 +111,7 @@ CLAIMED = {
                 technique='deterministic simulation: simulated clock + file system (readdir order permuted), real cleanup workers under the baton scheduler, model-based checking'),
     'C11': dict(level='exploration', ref='DESIGN.md 6.5',
                 text='seeded seed tasks (factor-2 / sqrt2 / custom-resolution grids, non-square extents, ll/ul origin, level '
-                     'subsets given as lists, ranges (open, zero-ended, beyond the grid) or resolutions, bbox / concave / multi-part / single-tile coverages and two coverages per seed entry in the grid SRS or EPSG:4326, grids with near-coincident tile borders, one or two caches per seed entry, meta sizes, skip_geoms_for_last_levels, progress cadence, '
+                     'subsets given as lists, ranges (open, zero-ended, beyond the grid) or resolutions, bbox / concave / multi-part / single-tile coverages and two coverages per seed entry in the grid SRS or EPSG:4326, another seeding process holding the cache lock of one of two caches for a while, grids with near-coincident tile borders, one or two caches per seed entry, meta sizes, skip_geoms_for_last_levels, progress cadence, '
                      'per-hand-off simulated work time) run through the real seed()/TileWalker/SeedProgress/ProgressLog/ProgressStore '
                      'with a recording pool at the hand-off; uninterrupted run compared with a brute-force shapely oracle over whole '
                      'levels (complete up to one pixel of the finest selected level, minimal up to a one-pixel band); then the same task with 1-3 seeded interruptions '
